@@ -1041,6 +1041,58 @@ theorem C18_fitLoop_is_C12_fit (stId : Nat) (es : EarlyStopping α) (evalFirst :
     · rw [hrst]; simp
     · rw [hrst]; simp
 
+/-- **C18 ↔ C12 with several stop sources.** One `fit(starting_epoch = c.start, epochs = c.epochs)` with the callback list
+`before ++ [evaluator] ++ after` of QV.Model.EarlyStop (`fitRunMulti`; sources = stoppers of any configuration and callbacks
+requesting a stop at given epoch-ends, each with any `last_epoch` so far) that returns `r`, and `Train.fit` with ANY request
+oracle `R` that asks exactly as the sources do — at `on_epoch_end(e)` iff `multiAsk … e` (some source before the evaluator asks
+on the history without this epoch's evaluation, or some source after it asks with it), never at another event or inside a batch
+(`multiReq`, `C18_multiReq_derived`, is such an oracle): either the run stopped at an epoch `e` of the range, `R` satisfies the
+hypotheses of `C12_stop_at_epoch_end` at `e`, the fired epochs are `start … e` and the C12 trace is train-start, `start … e`
+in full, train-end, both flags set; or nobody asked: `R` is quiet, complete trace, both flags clear. -/
+theorem C18_fit_cases_multi (before after : List (StopSrc α × Option Int)) (ev₀ : AnyEval W α) (wof : Int → W)
+    (c : Train.Cfg) (R : Train.Req) (fired₀ : List Int) (r : MultiState W α)
+    (hee : ∀ e, Train.reqEv c R (.epochEnd e) =
+      multiAsk (before.map Prod.fst) (after.map Prod.fst) ev₀ wof c.start e)
+    (hother : Train.reqEv c R .trainStart = false ∧ Train.reqEv c R .trainEnd = false ∧
+      (∀ e, Train.reqEv c R (.epochStart e) = false) ∧
+      (∀ e b, Train.reqEv c R (.batchStart e b) = false ∧ R.mid e b = false ∧ Train.reqEv c R (.batchEnd e b) = false))
+    (hrun : fitRunMulti ⟨ev₀, before, after, false, fired₀⟩
+      ((Train.epochRange c.start c.epochs).map (fun e => (e, wof e))) = .ok r) :
+    (∃ e, c.start ≤ e ∧ e ≤ c.epochs ∧
+        C12.QuietBefore c R e ∧ C12.QuietUpto c R e c.numBatches ∧ Train.reqEv c R (.epochEnd e) = true ∧
+        r.stop = true ∧ r.fired = fired₀ ++ Train.epochRange c.start e ∧
+        Train.events (Train.fit c R false).1 =
+          Train.Event.trainStart :: (C12.fullEpochs c.numBatches c.start e ++ [Train.Event.trainEnd]) ∧
+        (Train.fit c R false).2.stop = true) ∨
+    (C12.QuietBefore c R (c.epochs + 1) ∧
+        r.stop = false ∧ r.fired = fired₀ ++ Train.epochRange c.start c.epochs ∧
+        Train.events (Train.fit c R false).1 =
+          Train.Event.trainStart :: (C12.fullEpochs c.numBatches c.start c.epochs ++ [Train.Event.trainEnd]) ∧
+        (Train.fit c R false).2.stop = false) := by
+  obtain ⟨hts, hte, hes, hb⟩ := hother
+  have hup : ∀ e j, C12.QuietUpto c R e j := fun e j => ⟨hes e, fun b _ => hb e b⟩
+  have hqb : ∀ e, (∀ e', c.start ≤ e' → e' < e →
+      multiAsk (before.map Prod.fst) (after.map Prod.fst) ev₀ wof c.start e' = false) → C12.QuietBefore c R e :=
+    fun e h => ⟨hts, fun e' h1 h2 => ⟨hup e' _, by rw [hee e']; exact h e' h1 h2⟩⟩
+  simp only [fitRunMulti, Bool.false_eq_true, if_false] at hrun
+  have hev : evalAfter ev₀ wof (Train.epochRange c.start (c.start - 1)) = .ok ev₀ := by
+    rw [Train.epochRange_rec, if_pos (by omega)]; rfl
+  rcases fitLoopMulti_ask (before.map Prod.fst) (after.map Prod.fst) ev₀ wof c.start c.epochs _ c.start
+      ⟨ev₀, before, after, false, fired₀⟩ r rfl (Int.le_refl _) rfl rfl rfl hev hrun with
+    ⟨pre, e, post, hsplit, he, hpre, hrs, hrf⟩ | ⟨hnone, hrs, hrf⟩
+  · obtain ⟨hp, h1, h2, _⟩ := epochRange_split c.epochs pre c.start e post hsplit
+    have hq : C12.QuietBefore c R e := by
+      refine hqb e (fun e' g1 g2 => hpre e' ?_)
+      rw [hp]; exact (Train.mem_epochRange _ _ _).mpr ⟨g1, by omega⟩
+    have hr : Train.reqEv c R (.epochEnd e) = true := by rw [hee e]; exact he
+    obtain ⟨t1, t2⟩ := C12.C12_stop_at_epoch_end c R e h1 h2 hq (hup e _) hr
+    exact Or.inl ⟨e, h1, h2, hq, hup e _, hr, hrs, by rw [hrf, epochRange_split_snoc hsplit], t1, t2⟩
+  · have hq : C12.QuietBefore c R (c.epochs + 1) := by
+      refine hqb _ (fun e' g1 g2 => hnone e' ?_)
+      exact (Train.mem_epochRange _ _ _).mpr ⟨g1, by omega⟩
+    obtain ⟨t1, t2⟩ := C12.C12_complete_without_stop c R hq
+    exact Or.inr ⟨hq, hrs, hrf, t1, by rw [t2]; exact hte⟩
+
 end tie
 
 /-- **C18 stop trace.** The hypotheses of `C18_first_stop` (ℝ; any value sequence `wof`, patience `p ≥ 1`, periods ≥ 1, any
